@@ -978,3 +978,185 @@ def env5(ctx):
         raise AnchorMissing("ENV-5: %d direction-taking matchers scan a nested list (expected >= 2: structure, optional)" % n)
     r.analysed = {"nested_list_scanners": n}
     return r
+
+
+# ---------------------------------------------------------------- PAN-12: the scan cursor is tested before a segment is read through it
+
+SEGPOS = "asca::word::SegPos"
+
+
+def _pos_params(b):
+    return [i + 1 for i, ty in enumerate(b.param_tys or []) if ty.replace("&mut ", "").replace("&", "").strip() == SEGPOS]
+
+
+def _derives_from_param(b, l, params, depth=0):
+    """the parameter local a value is a copy / reborrow / deref of (or None)"""
+    from engine_flw2 import _single_def
+    if l in params:
+        return l
+    if depth > 8:
+        return None
+    d = _single_def(b, l)
+    if d is None:
+        return None
+    if d.get("k") == "use" and d["op"].get("k") in ("copy", "move"):
+        return _derives_from_param(b, d["op"]["pl"]["l"], params, depth + 1)
+    if d.get("k") == "ref":
+        return _derives_from_param(b, d["pl"]["l"], params, depth + 1)
+    return None
+
+
+def _unwrapped_next(b, t):
+    nxt = t.get("t")
+    nt = b.blocks[nxt]["t"] if nxt is not None else {}
+    return nt.get("k") == "call" and (nt["callee"].get("def") or "") in ("core::option::Option::unwrap", "core::option::Option::expect") \
+        and nt["args"][0].get("pl", {}).get("l") == t["dest"]["l"]
+
+
+def pan12(ctx):
+    """The input matchers read the segment under the scan cursor with `word.get_seg_at(pos).unwrap()` (or a callee that
+    does). The cursor is advanced after every matched element, so it can stand one past the last segment. A function that
+    unwraps without testing `in_bounds(pos)` *requires* an in-bounds cursor of its caller (to a fixed point through calls
+    that hand the cursor on); a caller that advances the cursor in a loop must test it on every path from the advance to
+    the call. `a...bk > *` on `akb` panicked in input_match_ipa: the ellipsis loop matches item after item without a test."""
+    r = RuleResult("PAN-12", "every read of the segment under the scan cursor (`get_seg_at(pos).unwrap()/expect()`, directly or in a callee) is preceded by a bounds test of that cursor: in the function itself, or in every caller on every path from the last advance", floor=4)
+    lib = ctx.lib
+    bodies = [b for b in lib.bodies if not b.in_test_mod() and b.blocks and b.path.startswith("asca::subrule::SubRule::") and "{closure" not in b.path]
+    by_path = {b.path: b for b in bodies}
+    CHECKS = ("asca::word::Word::in_bounds", "asca::word::Word::out_of_bounds")
+
+    def check_blocks(b, p, params):
+        out = set()
+        for i, t in b.calls():
+            cp = callee_path(t) or ""
+            if cp in CHECKS:
+                for a in t["args"]:
+                    if a.get("k") in ("copy", "move") and (_derives_from_param(b, a["pl"]["l"], params) == p or (a["pl"]["l"] == p)):
+                        out.add(i)
+            # `let Some(seg) = word.get_seg_at(pos) else { return .. }` / `match word.get_seg_at(pos)`: the Option is inspected
+            if cp == "asca::word::Word::get_seg_at" and len(t["args"]) >= 2 and t["args"][1].get("k") in ("copy", "move") \
+                    and _derives_from_param(b, t["args"][1]["pl"]["l"], params) == p and not _unwrapped_next(b, t):
+                out.add(i)
+        return out
+
+    def restore_blocks(b, root, loop_body):
+        """blocks that put the cursor back to a snapshot taken outside the loop: `*pos = back_pos`"""
+        out = set()
+        for bi, bl in enumerate(b.blocks):
+            if bi not in loop_body:
+                continue
+            for s_ in bl["s"]:
+                if s_["k"] == "assign" and s_["lhs"]["l"] == root and (s_["lhs"]["p"] == ["*"] or not s_["lhs"]["p"]) and s_["rv"].get("k") == "use" \
+                        and s_["rv"]["op"].get("k") in ("copy", "move") and not s_["rv"]["op"]["pl"]["p"]:
+                    src = s_["rv"]["op"]["pl"]["l"]
+                    from engine_flw2 import _single_def
+                    for _ in range(6):          # `_t = copy back_pos; *pos = move _t`
+                        d0 = _single_def(b, src)
+                        if d0 is not None and d0.get("k") == "use" and d0["op"].get("k") in ("copy", "move") and not d0["op"]["pl"]["p"] and not b.local_name(src):
+                            src = d0["op"]["pl"]["l"]
+                        else:
+                            break
+                    defs = [bj for bj, bl2 in enumerate(b.blocks) for s2 in bl2["s"] if s2["k"] == "assign" and s2["lhs"]["l"] == src and not s2["lhs"]["p"]]
+                    if defs and all(bj not in loop_body for bj in defs):
+                        out.add(bi)
+        return out
+
+    # direct requirements: get_seg_at(word, <pos from param p>) whose Option is unwrapped, with no dominating bounds test
+    requires = {}        # path -> {param local: (block, loc, why)}
+    n_sites = 0
+    for b in bodies:
+        params = set(_pos_params(b))
+        if not params:
+            continue
+        cfg = b.cfg
+        for i, t in b.calls():
+            if (callee_path(t) or "") != "asca::word::Word::get_seg_at" or len(t["args"]) < 2:
+                continue
+            a = t["args"][1]
+            p = _derives_from_param(b, a["pl"]["l"], params) if a.get("k") in ("copy", "move") else None
+            if p is None:
+                continue
+            nxt = t.get("t")
+            nt = b.blocks[nxt]["t"] if nxt is not None else {}
+            if not (nt.get("k") == "call" and (nt["callee"].get("def") or "") in ("core::option::Option::unwrap", "core::option::Option::expect") and nt["args"][0].get("pl", {}).get("l") == t["dest"]["l"]):
+                continue
+            n_sites += 1
+            guarded = any(cfg.dominates(cb, i) for cb in check_blocks(b, p, params))
+            loc = ":".join((t.get("loc") or b.loc).split(":")[:2])
+            r.inst("%s: get_seg_at(pos).%s() is %s" % (b.path.rsplit("::", 1)[-1], nt["callee"]["def"].rsplit("::", 1)[-1], "behind a bounds test of the cursor" if guarded else "unguarded: the caller must pass an in-bounds cursor"), loc, "ok")
+            if not guarded:
+                requires.setdefault(b.path, {})[p] = (i, loc, "reads the segment at the cursor unconditionally")
+    # propagate through calls that hand the cursor on
+    changed = True
+    while changed:
+        changed = False
+        for b in bodies:
+            params = set(_pos_params(b))
+            if not params:
+                continue
+            cfg = b.cfg
+            for i, t in b.calls():
+                cp = callee_path(t) or ""
+                if cp not in requires or cp == b.path:
+                    continue
+                cb = by_path[cp]
+                for k, a in enumerate(t["args"]):
+                    if (k + 1) in requires[cp] and a.get("k") in ("copy", "move"):
+                        p = _derives_from_param(b, a["pl"]["l"], params)
+                        if p is None or p in requires.get(b.path, {}):
+                            continue
+                        if any(cfg.dominates(cbk, i) for cbk in check_blocks(b, p, params)):
+                            continue
+                        requires.setdefault(b.path, {})[p] = (i, ":".join((t.get("loc") or b.loc).split(":")[:2]), "hands the cursor to %s" % cp.rsplit("::", 1)[-1])
+                        changed = True
+    # loops: from an advance of the cursor (SegPos::increment, or a requiring/advancing callee) to a requiring call
+    n_loops = 0
+    for b in bodies:
+        cfg = b.cfg
+        params = set(_pos_params(b))
+        locals_pos = params | {l for l in range(len(b.locals)) if (b.local_ty(l) or "").replace("&mut ", "").replace("&", "").strip() == SEGPOS and b.local_name(l)}
+        if not locals_pos:
+            continue
+        for h, body in cfg.loops:
+            for i, t in b.calls():
+                cp = callee_path(t) or ""
+                if i not in body or cp not in requires:
+                    continue
+                for k, a in enumerate(t["args"]):
+                    if (k + 1) not in requires[cp] or a.get("k") not in ("copy", "move"):
+                        continue
+                    root = _derives_from_param(b, a["pl"]["l"], locals_pos)
+                    if root is None:
+                        continue
+                    n_loops += 1
+                    checks = check_blocks(b, root, locals_pos) | restore_blocks(b, root, set(body))
+                    # advances inside the loop: increment on the same cursor, or any call that takes it mutably (may advance)
+                    adv = set()
+                    for j, t2 in b.calls():
+                        if j not in body:
+                            continue
+                        c2 = callee_path(t2) or ""
+                        takes = any(x.get("k") in ("copy", "move") and _derives_from_param(b, x["pl"]["l"], locals_pos) == root for x in t2["args"])
+                        if takes and (c2.endswith("SegPos::increment") or (c2 in by_path and any("&mut " + SEGPOS == (ty or "") for ty in (by_path[c2].param_tys or [])))):
+                            adv.add(j)
+                    bad = None
+                    for j in sorted(adv):
+                        nxt = b.blocks[j]["t"].get("t")
+                        if nxt is None:
+                            continue
+                        reach = cfg.reachable_from(nxt, avoid=checks)
+                        if i in reach and i not in checks:
+                            bad = j
+                            break
+                    loc = ":".join((t.get("loc") or b.loc).split(":")[:2])
+                    short = b.path.rsplit("::", 1)[-1]
+                    r.inst("%s: loop call of %s gets a cursor that was bounds-tested since its last advance" % (short, cp.rsplit("::", 1)[-1]), loc, "ok" if bad is None else "report")
+                    if bad is not None:
+                        bl = ":".join((b.blocks[bad]["t"].get("loc") or b.loc).split(":")[:2])
+                        r.report("PAN-12|%s|%s" % (short, cp.rsplit("::", 1)[-1]), loc, b.path,
+                                 "%s calls %s in a loop with a cursor that was advanced (%s) and not bounds-tested on the way: %s %s -- when the previous element matched at the last segment the cursor is past the end and the read panics (`a...bk > *` on `akb`)"
+                                 % (short, cp.rsplit("::", 1)[-1], bl, cp.rsplit("::", 1)[-1], requires[cp][k + 1][2]))
+    r.analysed = {"unwrap_sites": n_sites, "functions_requiring_in_bounds_cursor": len(requires), "loop_call_sites": n_loops}
+    if n_sites < 3:
+        raise AnchorMissing("PAN-12: %d reads of get_seg_at(cursor).unwrap() found (expected >= 3)" % n_sites)
+    return r
